@@ -42,8 +42,9 @@ pub fn parse_console(line: &str) -> Result<Event, String> {
     let proto = f[1].to_string();
     let verb = f[2].to_string();
     let want = arity(&proto).ok_or_else(|| format!("unknown protocol {:?}", proto))?;
-    if f.len() != want {
-        return Err(format!("{} {} line has {} fields, expected {}: {:?}", proto, verb, f.len(), want, line));
+    // a line cut short has fewer fields; additional trailing columns are not a defect
+    if f.len() < want {
+        return Err(format!("{} {} line has {} fields, expected at least {}: {:?}", proto, verb, f.len(), want, line));
     }
     let mut fields = HashMap::new();
     if proto == "arp" {
@@ -72,12 +73,7 @@ pub fn parse_logfmt(line: &str) -> Result<Event, String> {
         }
         order.push(k.to_string());
     }
-    let known = ["ts", "proto", "verb", "mac_src", "mac_dst", "ip_src", "ip_dst", "transport", "port_src", "port_dst", "eth_type", "next_proto", "icmp_type", "icmp_code", "icmpv6_type", "icmpv6_code", "op", "flags", "seq", "ack", "tcp_flags", "tcp_seq", "tcp_ack"];
-    for k in &order {
-        if !known.contains(&k.as_str()) {
-            return Err(format!("unknown key {:?} in {:?}", k, line));
-        }
-    }
+    // (any key is accepted: only the key=value syntax and the leading ts/proto/verb are required)
     if order.len() < 3 || order[0] != "ts" || order[1] != "proto" || order[2] != "verb" {
         return Err(format!("line does not start with ts= proto= verb=: {:?}", line));
     }
